@@ -13,7 +13,7 @@ func init() {
 			"(R4) no error return leaves the counter advanced (tree insertions cannot fail, or the counter is restored); (R5) replay filter: shouldApply decided on every ordering of (persisted index, entry index) by a finite order model, applyAdd only under it, new state = {l.Index, Version()+len-1}, state published after the write, every failure of the apply aborts; " +
 			"(R6) RaftNode.Add/AddBulk return the FSM's snapshots unchanged; (R7) RefreshVersion = last history key + 1 from the history table; (R8) CurrentVersion reported by proofs = version-1, and the version fields are bound field-for-field by the wire conversions; (R9) a state transfer is loaded until the stream's io.EOF or fails (no silent prefix).",
 		Assumptions: []string{"raft delivers committed entries in index order", "the store's batch write is atomic (C14)"},
-		Added:       "Third round: (R5) nothing on the apply path recovers from a panic; (R9) a restore always requests the transfer, reports its own version and ends on the first refused batch; (R6) hasher factories return a new hasher on every call.",
+		Added:       "Third round: (R5) nothing on the apply path recovers from a panic; (R9) a restore always requests the transfer, reports its own version and ends on the first refused batch; (R6) hasher factories return a new hasher on every call. Fifth round: RefreshVersion sets the counter unconditionally on the found edge; an encoded command never aliases a recycled buffer.",
 		Declined:    "absence of gaps across restarts / leader changes / replays as a statement over schedules and crash points (raft's guarantees, RocksDB durability).",
 	}, runC05)
 }
